@@ -754,7 +754,8 @@ def _des_array_loop(s):
             # i elements of a deep-sealed element type: the position is (prefix +) a k-fold sum of element lengths
             "progress": IMPLIES(DEEP_SEALED(s.schema._element_type), lambda: MEM(
                 r._bit_offset - o._bit_offset - ITE(ISINST(s.schema, "VariableLengthArrayType"), PREFIX_W(s.schema), 0),
-                kfold_s(L_OF(s.schema._element_type), s.i)))}
+                kfold_s(L_OF(s.schema._element_type), s.i))),
+            **_array_element_protocol(s, "_deserialize_element", "reader", "des")}
 
 
 def _des_array_triggers(s):
@@ -798,6 +799,8 @@ class _DesComposite:
             s.old.reader, s.schema) <= DIV(AS(s.schema, DELIMITED)._extent, 8)), lambda: _des_delimited_chain(s))
         d["tag-not-clamped"] = IMPLIES(ISINST(s.schema, "UnionType"),
                                        lambda: TAG_READ(s.old.reader, s.schema) < LEN(FIELDS(s.schema)))
+        d["union-variant-decoded"] = IMPLIES(ISINST(s.schema, "UnionType"),
+                                             lambda: _union_variant_call(s, "_deserialize_field_value", False))
         return d
 
 
@@ -824,11 +827,32 @@ def _des_struct_loop(s):
     ft = FIELD_TYPES(s.schema)
     sf = st.V.SymSet(st.sfold_f(st.lmap_f(ft.arr), st.amap_f(ft.arr), st._i(s.i)))
     y = r._bit_offset - o._bit_offset
-    return {"frame": AND(SAME_BYTES(r._data, o._data), r._start_offset == o._start_offset, EQ(r._bit_limit, o._bit_limit)),
-            "forward": r._bit_offset >= o._bit_offset,
-            "hint": AND(H_PAD(y), H_PADSET_IN(sf, y)),
-            # the position after i fields is in the layout fold of the first i fields (as on the serializer side)
-            "progress": IMPLIES(DEEP_SEALED(s.schema), lambda: MEM(y, sf))}
+    d = {"frame": AND(SAME_BYTES(r._data, o._data), r._start_offset == o._start_offset, EQ(r._bit_limit, o._bit_limit)),
+         "forward": r._bit_offset >= o._bit_offset,
+         "hint": AND(H_PAD(y), H_PADSET_IN(sf, y)),
+         # the position after i fields is in the layout fold of the first i fields (as on the serializer side)
+         "progress": IMPLIES(DEEP_SEALED(s.schema), lambda: MEM(y, sf))}
+    d.update(_struct_field_decoding_protocol(s))
+    return d
+
+
+def _struct_field_decoding_protocol(s):
+    """Every field is decoded exactly once, in order, by the decoder of its own type from this reader: per iteration of the
+    structure loop a padding field makes no call of the field decoder, any other field exactly one (obligation side only -
+    see _iteration_calls)."""
+    r = _iteration_calls(s, "c06_des_struct_iter_mark")
+    if r is None:
+        return {}
+    i0, calls = r
+    des = [e for e in calls if e["callee"].endswith("_deserialize_field_value")]
+    f = AT(FIELDS(s.schema), i0)
+    is_pad = ISINST(f, "PaddingField")
+    if not des:
+        return {"field-decoded-once": is_pad}
+    c = des[0]["ns"]
+    return {"field-decoded-once": AND(NOT(is_pad), len(des) == 1),
+            "field-decoded-by-own-type": _same_ref(c.field_type, f._data_type),
+            "field-decoded-from-this-reader": _same_ref(c.reader, s.reader)}
 
 
 def _des_struct_triggers(s):
@@ -1029,6 +1053,28 @@ class _SerArray:
         return d
 
 
+def _array_element_protocol(s, callee_suffix, dev, tag):
+    """Every element is encoded / decoded exactly once, in order, by the codec of the element type on this device: per
+    iteration of the element loop exactly one call of the element codec (serializer: for element i of the sequence that is
+    iterated).  Obligation side only - see _iteration_calls."""
+    r = _iteration_calls(s, "c06_array_iter_mark_%s_%s" % (callee_suffix, tag))
+    if r is None:
+        return {}
+    i0, calls = r
+    el = [e for e in calls if e["callee"].endswith(callee_suffix)]
+    if len(el) != 1:
+        return {"element-coded-once": False}
+    c = el[0]["ns"]
+    out = {"element-coded-once": True,
+           "element-coded-by-element-type": _same_ref(c.element_type, ELEM(s.schema)),
+           "element-coded-on-this-device": _same_ref(getattr(c, dev), getattr(s, dev))}
+    if dev == "writer":
+        it = AT(s.seq, i0)
+        vt, et = getattr(c.value, "term", None), getattr(it, "term", None)
+        out["element-is-the-ith"] = (vt == et) if (vt is not None and et is not None) else (c.value is it)
+    return out
+
+
 def _ser_array_inv(variable):
     def inv(s):
         o, w = s.old.writer, s.writer
@@ -1039,6 +1085,7 @@ def _ser_array_inv(variable):
              "element-aligned": ALIGNED_AT(ELEM(t), w._bit_offset)}
         if variable:
             d["length-prefix"] = BITSVAL(w._buffer, o._bit_offset, PREFIX_W(t), unfold=False) == LEN(s.seq)
+        d.update(_array_element_protocol(s, "_serialize_element", "writer", variable))
         return d
 
     def triggers(s):
@@ -1202,6 +1249,8 @@ class _SerComposite:
                                     lambda: AND(DTAG(s.obj, dm.T_DICT), STRUCT_KEYS_VALID(t, s.obj)))
         # union tag = index of the (first) variant named by the key
         d["union-tag"] = IMPLIES(ISINST(t, "UnionType"), lambda: _tag_is_variant_index(s))
+        # ... and what follows the tag is the given value of that variant, encoded by that variant's own type, once
+        d["union-variant-encoded"] = IMPLIES(ISINST(t, "UnionType"), lambda: _union_variant_call(s, "_serialize_field_value", True))
         # delimiter header = byte length of the inner representation, followed by exactly that many bytes
         # hint for length-in-L of a delimited type: 32 + 8 * n with n <= extent / 8 (definition of `multiples`)
         d["hint-delimited"] = IMPLIES(ISINST(t, "DelimitedType"), lambda: H_MULT(
@@ -1298,6 +1347,29 @@ def _delimited_membership_chain(s):
     S32 = st.sumset_f(st.singleton_f(z3.IntVal(32)), M)
     return AND(z3.Select(M, n * 8), z3.Select(st.singleton_f(z3.IntVal(32)), z3.IntVal(32)), z3.Select(S32, 32 + n * 8),
                MEM(32 + n * 8, L_OF(t)))
+
+
+def _union_variant_call(s, callee_suffix, with_value):
+    """SMT reading (protocol over the ghost call log of this path): exactly one call of the field codec, for the type of the
+    variant selected by the tag (serializer: with the value stored under the key of the input dict)."""
+    if not smt():
+        return True
+    t = s.schema
+    calls = [e for e in speclib.CTX.call_log if e["callee"].endswith(callee_suffix)]
+    if len(calls) != 1:
+        return False
+    c = calls[0]["ns"]
+    fs = FIELDS(t)
+    if with_value:
+        tag = BITSVAL(s.writer._buffer, s.old.writer._bit_offset, TAG_W(t), unfold=False)
+        key = UNION_KEY(s.obj)
+        vt = c.value.term if isinstance(c.value, DynV) else None
+        if vt is None:
+            return False
+        return AND(_same_ref(c.field_type, AT(fs, tag)._data_type), _same_ref(c.writer, s.writer),
+                   vt == dm.get_f(s.obj.term, V_Str(key)))
+    tag = TAG_READ(s.old.reader, t)
+    return AND(_same_ref(c.field_type, AT(fs, tag)._data_type), _same_ref(c.reader, s.reader))
 
 
 def _tag_is_variant_index(s):
@@ -2366,31 +2438,36 @@ def _no_hidden_state(eng, tier, seed):
 EXTRA_CHECKS = [_bounded_codec, _bit_op_table, _no_hidden_state]
 
 NOT_COVERED = [
-    "_serialize_array / _serialize_composite / serialize / _default_value / _normalize_relaxed_value (dict handling of the "
-    "serializer): no contract; covered only by the BOUNDED native stand-in (composite round trip, produced length in "
-    "bit_length_set, defaults, delimiter header = inner byte length)",
-    "offsets of arrays / structures / unions as elements of L(T) (link to the C02 oracle): not proved (bounded stand-in); "
-    "proved instead: the alignment discipline of the decoder (aligned start => aligned end, alignment before each field, "
-    "final padding) and `reader moves forward`",
-    "values of deserialized arrays / composites (lists / dicts are opaque to the engine); the value level is proved for "
-    "primitives only",
+    "the composite-level VALUE round trip deserialize(serialize(v)) == v as one statement: proved are its per-call links - "
+    "every structure field / array element / union variant is encoded and decoded exactly once, in order, by the codec of "
+    "its own type on the same device, the serializer takes the given value (or what _default_value returned for an omitted "
+    "field), tag = index of the named variant, prefix = element count, header = payload byte length, positions in L(T) - "
+    "and the primitive round trip; that the decoder's result dict / list holds the decoded values under the field names "
+    "(dicts / lists built in loops are opaque to the engine) is covered by the BOUNDED native stand-in only",
+    "_default_value: proved by class (scalar zeros, empty str / bytes / list, fixed array length, dict for composites); the "
+    "full default value (recursively) by the native reading and the bounded omitted-field check",
+    "decoder positions in L(T) for types that nest a delimited member: not proved (only for deep-sealed types); framing of "
+    "the delimited object itself is proved",
     "float codec (IEEE 754 packing through struct, NaN/inf/subnormals, float -> int rounding of numeric inputs): trusted",
-    "termination of the mutually recursive _deserialize_* functions (structural recursion over the finite type tree): not "
-    "proved; read_bits / write_bits recursion is proved terminating (decreases bit_length)",
-    "relaxed input forms (_normalize_relaxed_value)",
+    "termination of the mutually recursive _serialize_* / _deserialize_* functions (structural recursion over the finite "
+    "type tree): not proved; read_bits / write_bits recursion is proved terminating (decreases bit_length)",
+    "relaxed input forms (_normalize_relaxed_value): assumed interface, bounded native check only",
 ]
 NOT_COVERED_C07 = [
     "the clause `returns an object that is valid for T (re-serialisation is a fixed point)`: bounded stand-in only",
     "b and b followed by zero bytes decode alike at the level of whole objects: proved for every single read (bitsval over "
-    "the zero-extended data) and for primitives; composite level by the bounded stand-in",
+    "the zero-extended data), for primitives and for the sequence of codec calls (each field / element / variant decoded "
+    "once, in order, from the same reader); the assembled composite value by the bounded stand-in",
     "float decoding (struct.unpack on an exactly-sized buffer is total): trusted; termination of the type recursion",
 ]
 NOT_COVERED_C14 = [
     "layout half (container bit length set / extent / following offsets unchanged when a nested delimited type is replaced "
-    "by a revision with the same extent): C02/C08 contracts, not this module",
-    "writer side: delimiter header = byte length of the inner representation (the serializer has no contract): bounded "
-    "stand-in (360 writer/reader revision pairs x containers x values per run)",
-    "`common leading fields keep their values`: value level is opaque to the engine; bounded stand-in",
+    "by a revision with the same extent): lemmas over the C02/C08 contracts (specs/c14_layout.py), not this module",
+    "`common leading fields keep their values` as a statement about VALUES: the engine proves the framing (header = byte "
+    "length of the inner representation written to a fresh writer, exactly that many bytes follow; the reader of either "
+    "revision is advanced by 32 + 8 * header and reads zeros beyond the payload; no state is shared between payloads - AST "
+    "effect obligations) and the per-field codec protocol; the assembled values by the bounded stand-in (writer/reader "
+    "revision pairs x containers x values per run)",
 ]
 EXPLANATION = (
     "Bit layer: _BitReader.read_bits returns bitsval(data, offset, k) (k = n, or the bits left before start+limit of a bounded "
